@@ -2,6 +2,7 @@ package godi
 
 import (
 	"context"
+	"errors"
 	"fmt"
 	"reflect"
 	"strconv"
@@ -367,7 +368,7 @@ func (sc *collection) doBuild(ctx context.Context) (Provider, error) {
 			return nil, &BuildError{
 				Phase:   "cleanup",
 				Details: "failed to clean up partially created provider",
-				Cause:   closeErr,
+				Cause:   errors.Join(err, closeErr),
 			}
 		}
 
@@ -385,7 +386,7 @@ func (sc *collection) doBuild(ctx context.Context) (Provider, error) {
 			return nil, &BuildError{
 				Phase:   "cleanup",
 				Details: "failed to clean up partially created provider",
-				Cause:   closeErr,
+				Cause:   errors.Join(err, closeErr),
 			}
 		}
 
